@@ -115,6 +115,20 @@ def r1_independent(R) -> None:
                 whole_objects = [x.id for x in ast.walk(ast.parse(kt, mode='eval')) if isinstance(x, ast.Name) and x.id in params_ | {'self'}]
                 parents_ = {id(c_): p_ for p_ in ast.walk(ast.parse(kt, mode='eval')) for c_ in ast.iter_child_nodes(p_)}
                 if looked_up and not any(nm_ == 'self' for nm_ in whole_objects):
+                    from rules.parser_roles import TermMatch, term_match_qualname
+                    verdicts = []
+                    try:
+                        if fq == term_match_qualname(R):
+                            verdicts = [v_ for v_ in TermMatch(R).memo if f'`{D_}`' in v_[1]]
+                    except (Unsupported, Exception):
+                        verdicts = []
+                    if verdicts and all(v_[0] == 'ok' for v_ in verdicts):
+                        R.ok(fq, verdicts[0][1])
+                        continue
+                    if any(v_[0] == 'bad' for v_ in verdicts):
+                        bad_ = [v_ for v_ in verdicts if v_[0] == 'bad'][0]
+                        R.violation(fq, 'memo-key-incomplete', bad_[1] + ' - what a statement parses to depends on the statements parsed before it', where=bad_[2])
+                        continue
                     raise Unknown(f'{fq}: `{text(w)[:60]}` fills a memo table keyed by `{kt[:50]}`: whether that key determines the cached value (so that the parse of a '
                                   f'statement does not depend on earlier ones) is not decided')
             R.violation(fq, 'global-write:' + text(w)[:60], f'`{text(w)[:70]}` writes module-level state: the parse of one statement could depend on earlier ones',
